@@ -3,6 +3,7 @@ import Drv.Index
 import Drv.C13
 import Drv.RL
 import Drv.C345
+import Drv.C789
 open Lean Drv
 
 def dispatch (op : String) (j : Json) : Json :=
@@ -15,6 +16,9 @@ def dispatch (op : String) (j : Json) : Json :=
   | "C03.setitem" => C03.setitem j
   | "C04.ufunc" => C04.ufunc j
   | "C05.reduce" => C05.reduce j
+  | "C07.scan" => C07.scan j
+  | "C08.struct" => C08.struct j
+  | "C09.cols" => C09.cols j
   | "RL.encode" => RL.encode j
   | "RL.index" => RL.index j
   | "RL.binop" => RL.binop j
